@@ -355,11 +355,15 @@ structure SolveResult (α : Type) where
 
 def SolveResult.passes (r : SolveResult α) : Nat := r.traj.length
 
-/-- `solve()` -/
+/-- `solve()`.  The norm caches `data.normq` / `data.normb` that `Info.update` fills at the top of
+every pass (`get_normq` / `get_normb`) are stored in the returned object once, after the loop
+(`Solver.fillNorms`; see `Solver.solve` of `ClarabelModel/Solver/Solve.lean`). -/
 def Solver.solve (S : Solver α) (st : Settings α) : MErr (SolveResult α) := do
   let L ← S.st.runSolve st
   let r ← finish st L S.solution
-  pure { S := { st := r.1, solution := r.2 }, traj := L.traj }
+  -- the caches `Info.update` filled (`get_normq` / `get_normb`)
+  let data ← Clarabel.Solver.fillNorms r.1.data
+  pure { S := { st := { r.1 with data := data }, solution := r.2 }, traj := L.traj }
 
 end
 
